@@ -147,7 +147,7 @@ fn c17_bind_other_port_is_free() {
     kani::cover!(o == Outcome::Ok, "free");
 }
 }
-// @verif id=C17 tier=thorough role=bind_matrix timeout=1200 desc=new=[::]:5000/udp-vs-symbolic-v4-existing(families-separate)
+// @verif id=C17 tier=quick role=bind_matrix timeout=1200 mem=20 desc=new=[::]:5000/udp-vs-existing-0.0.0.0(families-are-separate-spaces)
 crate::verif_proof! { unwind = 18;
 fn c17_bind_v6_wildcard_ignores_v4_bindings() {
     let (o, _) = bind_matrix(WILD6, 5000, Type::Dgram, WILD4, 5000);
